@@ -351,8 +351,11 @@ def register_pandas():
 
     @normalize_token.register(pd.DataFrame)
     def normalize_dataframe(df):
-        mgr = df._mgr
-        data = list(mgr.arrays) + [df.columns, df.index]
+        # Column by column: how the columns are grouped into blocks is not
+        # determined by the values (a frame with a column assigned later has
+        # one block more than its copy or its deep copy)
+        data = [df.iloc[:, i]._values for i in range(df.shape[1])]
+        data += [df.columns, df.index]
         return list(map(normalize_token, data))
 
     @normalize_token.register(pd.arrays.ArrowExtensionArray)
